@@ -23,6 +23,9 @@ from .. import stages, javaeval, rslayout, sym, ref as refm
 LEVEL = "translation_validation"
 
 
+SAMPLES = []
+
+
 def key_for(o, fn):
     role = re.sub(r"#\d+", "", o.role or "")
     return f"C19|java|{fn}|{o.kind}|{role}"
@@ -101,6 +104,10 @@ def check_decl(rep, name, jm, r, decl, c, stats, st):
                     cm = DCmp(rep, where, r, decl, ev, prop="C19")
                     cm.side = "java"
                     cm.run(want)
+                    if len(SAMPLES) < 4 and ev.items:
+                        SAMPLES.append({"description": name, "class": c["name"], "method": pm["name"],
+                                        "reference_items": [w["k"] for w in want][:8],
+                                        "parser_items": [x["k"] for x in ev.items][:8]})
                     stats["items"] += cm.n
         # (d) dispatch
         kids = r.children(decl) if hasattr(r, "children") else []
@@ -204,6 +211,7 @@ def check_decl(rep, name, jm, r, decl, c, stats, st):
 
 
 def run(rep, tier, seed):
+    del SAMPLES[:]
     g = rc.gen(tier, seed)
     d, idx = stages.stage_java(tier, seed)
     stats = {"modules": 0, "functions": 0, "obligations": 0, "discharged": 0, "items": 0, "undecided": 0, "helpers": 0,
@@ -252,7 +260,7 @@ def run(rep, tier, seed):
                         f"{name}:{decl}")
     rep.coverage.update({
         "programs": stats["functions"], "disagreements_checked": stats["items"] + stats["obligations"] + stats["helpers"],
-        **stats,
+        **stats, "samples": SAMPLES[:4],
         "explanation": "javac syntax trees of every emitted Java class: helpers bit by bit, parsers vs the reference layout "
                        "with sign-extension obligations, serializers vs the reference layout, fieldWidth vs bytes written",
     })
